@@ -305,6 +305,37 @@ def elementwise(f, a, b):
         return Unknown(str(e))
 
 
+def compose_index(base, ix):
+    """X[a:b, ...][c:d] -> X[a+c:a+d, ...] and X[a:b, ...][k] -> X[a+k, ...] for constant c, d, k inside the (constant) length of a:b"""
+    p = fn_parts(base) if is_rat(base) else None
+    if p is None or p[0] != "idx" or len(p[1]) != 2:
+        return None
+    ix0 = untuple(p[1][1])
+    first = ix0[0] if isinstance(ix0, tuple) and ix0 else ix0
+    s0 = as_slice(first) if is_rat(first) else None
+    if s0 is None or s0[2] is not None or s0[1] is None:
+        return None
+    lo = F.const(0) if s0[0] is None else s0[0]
+    n = int_of(s0[1] - lo)
+    if n is None or n <= 0:
+        return None
+    s1 = as_slice(ix)
+    if s1 is not None:
+        c = 0 if s1[0] is None else int_of(s1[0])
+        d = n if s1[1] is None else int_of(s1[1])
+        if s1[2] is not None or c is None or d is None or not 0 <= c <= d <= n:
+            return None
+        new = slice_value(lo + c, lo + d, None)
+    else:
+        k = int_of(ix)
+        if k is None or not 0 <= k < n:
+            return None
+        new = lo + k
+    rest = ix0[1:] if isinstance(ix0, tuple) else ()
+    newix = (new,) + tuple(rest) if rest else new
+    return F.fn("idx", p[1][0], wrap_index(newix))
+
+
 def slice_value(lo, hi, st):
     return F.fn("slice", NONE if lo is None else lo, NONE if hi is None else hi, NONE if st is None else st)
 
@@ -349,6 +380,16 @@ def index_nested(base, ix):
 
 
 # ------------------------------------------------------------------------------------------------------------ the evaluator
+class DictVal(tuple):
+    """a dict literal with known keys: the tuple of its (key, value) pairs"""
+
+    def lookup(self, k):
+        for a, b in self:
+            if same(a, k):
+                return b
+        return None
+
+
 class Shared:
     """state shared by an evaluation and the helper evaluations it inlines"""
 
@@ -360,6 +401,7 @@ class Shared:
         self.loops = []
         self.asked = []        # (value of the test, node, decision)
         self.counter = 0
+        self.loopstack = []
         self.modconst = {}
         self.inits = []        # (buffer name, value it was (re)bound to, statement) in evaluation order
         self.envs = []         # environment of the evaluation and of every helper evaluation it inlined
@@ -613,6 +655,11 @@ class GeomEval(AutoEvaluator):
             return super()._ev(node)
         if isinstance(node, ast.Subscript):
             return self._subscript(node)
+        if isinstance(node, ast.Dict) and node.keys and all(k is not None for k in node.keys):
+            ks = [self._ev(k) for k in node.keys]
+            vs = [self.ev(v) for v in node.values]
+            if not any(is_unknown(k) for k in ks):
+                return DictVal(zip(ks, vs))
         if isinstance(node, (ast.ListComp, ast.GeneratorExp, ast.SetComp, ast.DictComp, ast.Dict, ast.Set, ast.Lambda, ast.JoinedStr)):
             return F.fn("opaque", f"#{self.sh.fresh()}")
         return super()._ev(node)
@@ -644,11 +691,18 @@ class GeomEval(AutoEvaluator):
             r = self.sub_hook(base, ix, node, self)
             if r is not NotImplemented:
                 return r
+        if isinstance(base, DictVal):
+            r = base.lookup(ix) if not isinstance(ix, tuple) or True else None
+            return r if r is not None else Unknown("dict look-up")
         if isinstance(base, tuple):
             r = index_nested(base, ix)
             if r is NotImplemented:
                 return Unknown(f"index of a dense array {ast.unparse(node.slice)}")
             return r
+        if not isinstance(ix, tuple):
+            r = compose_index(base, ix)
+            if r is not None:
+                return r
         if not isinstance(ix, tuple) and as_slice(ix) is not None:
             rows = self._rows_of(ix)
             if rows is not None and rows[0] == "many":
@@ -759,6 +813,21 @@ class GeomEval(AutoEvaluator):
             sh = shape_of(v) if isinstance(v, tuple) else None
             if sh is not None:
                 return F.const(math.prod(sh) if name == "np.size" else len(sh))
+        if meth in ("items", "keys", "values") and nargs == 0:
+            d = self.ev(node.func.value)
+            if isinstance(d, DictVal):
+                return tuple(d) if meth == "items" else tuple(x[0 if meth == "keys" else 1] for x in d)
+        if meth == "get" and nargs in (1, 2):
+            d = self.ev(node.func.value)
+            if isinstance(d, DictVal):
+                k = self.ev(node.args[0])
+                r = None if is_unknown(k) else d.lookup(k)
+                if r is not None:
+                    return r
+                if not is_unknown(k) and all(const_of(a) is not None or single_atom(a) is not None for a, _ in d if is_rat(a)) \
+                        and (const_of(k) is not None):
+                    return self.ev(node.args[1]) if nargs == 2 else NONE
+                return Unknown("dict look-up with a symbolic key")
         if name == "len" and nargs == 1:
             v = self.ev(node.args[0])
             if isinstance(v, tuple):
@@ -775,7 +844,7 @@ class GeomEval(AutoEvaluator):
             root = node.func.value
             while isinstance(root, (ast.Attribute, ast.Subscript, ast.Call)):
                 root = root.value if not isinstance(root, ast.Call) else root.func
-            local = isinstance(root, ast.Name) and (root.id in self.env or root.id in self.buffers)
+            local = isinstance(root, ast.Name) and (root.id in self.env or root.id in self.buffers or root.id in self.locals_)
             if name is None or local:
                 args.append(self._opaque(self.ev(node.func.value)))
                 cname = "." + node.func.attr
@@ -922,8 +991,10 @@ class GeomEval(AutoEvaluator):
 
     def _loop_open(self, st, it):
         rec = {"node": st, "iter": it, "var": None, "cells": [len(self.cells), None], "calls": [len(self.calls), None],
-               "rows": [len(self.sh.rowlog), None], "asked": [len(self.sh.asked), None], "inits": [len(self.sh.inits), None], "depth": self.depth}
+               "rows": [len(self.sh.rowlog), None], "asked": [len(self.sh.asked), None], "inits": [len(self.sh.inits), None], "depth": self.depth,
+               "outer": self.sh.loopstack[-1] if self.sh.loopstack else None}
         self.sh.loops.append(rec)
+        self.sh.loopstack.append(rec)
         return rec
 
     def _loop_close(self, rec):
@@ -932,6 +1003,8 @@ class GeomEval(AutoEvaluator):
         rec["rows"][1] = len(self.sh.rowlog)
         rec["asked"][1] = len(self.sh.asked)
         rec["inits"][1] = len(self.sh.inits)
+        if self.sh.loopstack and self.sh.loopstack[-1] is rec:
+            self.sh.loopstack.pop()
 
     def _for(self, st):
         it = self.ev(st.iter)
